@@ -10,7 +10,10 @@ PROGS2 = ['swp0:0,swp0:0;acq0:0,tch0,cpy0:1,rst0,tch1',
           'swp0:0,acq0:1,tch1;swp0:0,acq0:1,tch1',
           # many guards acquired in pairwise different eras / epochs while another thread retires what they protect (dynamic slot growth)
           'acq0:0,swp1:1,acq2:2,swp3:3,acq3:3,tch0,tch2,tch3,acq1:1,tch1;swp0:0,swp2:2,swp3:3',
-          'swp3:3,acq0:0,swp3:3,acq1:1,swp3:3,acq2:2,swp3:2,acq3:3,tch0,tch1,tch3;swp0:0,swp1:1,swp0:0']
+          'swp3:3,acq0:0,swp3:3,acq1:1,swp3:3,acq2:2,swp3:2,acq3:3,tch0,tch1,tch3;swp0:0,swp1:1,swp0:0',
+          # era ladder: each guard protects an object constructed in a later era than the previous guard's (dynamic slot growth while guards are live)
+          'acq0:0,swp3:3,swp1:3,acq1:1,swp1:3,acq2:2,swp3:3,tch1,tch0,tch2,acq3:3,swp2:3,tch1',
+          'acq0:0,swp3:3,swp1:3,acq1:1,acq3:3,acq2:2,tch1,tch2;swp2:0,swp1:0,swp3:0,swp2:0']
 PROGS3 = ['swp0:0;swp0:0;acq0:0,tch0,cpy0:1,rst0,tch1',
           'swp0:0,swp0:0;acq0:0,tch0;acqe0:0,tch0',
           'rgn1,acq0:0,acq0:1,rgn0;swp0:0;swp0:1,swp0:0']
